@@ -132,7 +132,7 @@ def ofStrBody (neg : Bool) (s : List Nat) : Except PyExc F :=
           let e10 : Int := ex - (fp.length : Int)
           if mant = 0 then .ok (.fin neg 0 0)
           else if e10 > 400 then .ok (.inf neg)
-          else if e10 < -800 then .ok (.fin neg 0 0)
+          else if e10 + ((ip ++ fp).length : Int) < -400 then .ok (.fin neg 0 0)
           else if e10 ≥ 0 then .ok (ofRat neg (mant * 10 ^ e10.toNat) 1)
           else .ok (ofRat neg mant (10 ^ (-e10).toNat))
 
@@ -163,10 +163,10 @@ theorem takeDigitsU_all (ds : List Nat) (h : AllDigits ds) : takeDigitsU ds [] f
   have := takeDigitsU_digits ds [] [] false h (Or.inl rfl)
   simpa using this
 
-theorem ofStr_tail (neg : Bool) (mant k : Nat) (hk : k ≤ 800) :
+theorem ofStr_tail (neg : Bool) (mant k n : Nat) (hk : k ≤ n) :
     (if mant = 0 then Except.ok (F.fin neg 0 0)
      else if (0 : Int) - (k : Int) > 400 then Except.ok (F.inf neg)
-     else if (0 : Int) - (k : Int) < -800 then Except.ok (F.fin neg 0 0)
+     else if (0 : Int) - (k : Int) + (n : Int) < -400 then Except.ok (F.fin neg 0 0)
      else if (0 : Int) - (k : Int) ≥ 0 then Except.ok (ofRat neg (mant * 10 ^ ((0 : Int) - (k : Int)).toNat) 1)
      else Except.ok (ofRat neg mant (10 ^ (-((0 : Int) - (k : Int))).toNat)) : Except PyExc F) =
     Except.ok (ofRat neg mant (10 ^ k)) := by
@@ -180,7 +180,7 @@ theorem ofStr_tail (neg : Bool) (mant k : Nat) (hk : k ≤ 800) :
       rw [this]
 
 theorem ofStrBody_decimal (neg : Bool) (ip fp : List Nat) (hip : AllDigits ip) (hfp : AllDigits fp)
-    (hne : ip ≠ [] ∨ fp ≠ []) (hk : fp.length ≤ 800) :
+    (hne : ip ≠ [] ∨ fp ≠ []) :
     ofStrBody neg (ip ++ 46 :: fp) = .ok (ofRat neg (digitsVal (ip ++ fp)) (10 ^ fp.length)) := by
   obtain ⟨c, r, hs, hc⟩ : ∃ c r, ip ++ 46 :: fp = c :: r ∧ c ≤ 57 := by
     cases ip with
@@ -205,7 +205,7 @@ theorem ofStrBody_decimal (neg : Bool) (ip fp : List Nat) (hip : AllDigits ip) (
       | nil => exact absurd rfl h
       | cons _ _ => simp
   simp only [he, Bool.or_self, Bool.and_false, Bool.false_eq_true, if_false, List.isEmpty_nil, Bool.not_true]
-  exact ofStr_tail neg _ _ hk
+  exact ofStr_tail neg _ fp.length (ip ++ fp).length (by rw [List.length_append]; omega)
 
 theorem ofStrBody_decimal_nodot (neg : Bool) (ip : List Nat) (hip : AllDigits ip) (hne : ip ≠ []) :
     ofStrBody neg ip = .ok (ofRat neg (digitsVal ip) 1) := by
@@ -222,7 +222,7 @@ theorem ofStrBody_decimal_nodot (neg : Bool) (ip : List Nat) (hip : AllDigits ip
   rw [← hs] at hl1 hl2 hl3
   simp only [hl1, hl2, hl3, ht1, he, Bool.or_self, Bool.and_false, Bool.false_and, Bool.false_eq_true, if_false,
     List.isEmpty_nil, Bool.not_true, List.append_nil, List.length_nil]
-  have := ofStr_tail neg (digitsVal ip) 0 (by omega)
+  have := ofStr_tail neg (digitsVal ip) 0 ip.length (by omega)
   simpa using this
 
 
@@ -250,11 +250,11 @@ theorem ofStr_signed (sign : Option Bool) (t : List Nat) (c : Nat) (r : List Nat
 
 theorem dot_not_space : Py.isStrSpace 46 = false := by decide
 
-/-- **`float(text)` of a decimal with a point.** For digits `ip` and `fp` (not both empty; at most 800 fraction
-    digits, beyond which the model clamps to zero) and an optional sign, `float(sign ip "." fp)` is the double
+/-- **`float(text)` of a decimal with a point.** For digits `ip` and `fp` (not both empty; any number of
+    digits) and an optional sign, `float(sign ip "." fp)` is the double
     nearest to `(ip fp read as one integer) / 10^(number of fraction digits)`. Leading zeros are allowed. -/
 theorem ofStr_decimal (sign : Option Bool) (ip fp : List Nat) (hip : AllDigits ip) (hfp : AllDigits fp)
-    (hne : ip ≠ [] ∨ fp ≠ []) (hk : fp.length ≤ 800) :
+    (hne : ip ≠ [] ∨ fp ≠ []) :
     ofStr (signChars sign ++ (ip ++ 46 :: fp)) =
       .ok (ofRat (sign == some true) (digitsVal (ip ++ fp)) (10 ^ fp.length)) := by
   obtain ⟨c, r, hs, hc⟩ : ∃ c r, ip ++ 46 :: fp = c :: r ∧ (c ≠ 43 ∧ c ≠ 45) := by
@@ -263,7 +263,7 @@ theorem ofStr_decimal (sign : Option Bool) (ip fp : List Nat) (hip : AllDigits i
     | cons d ds =>
       have := (isDigit_iff d).mp (hip d (List.mem_cons_self ..))
       exact ⟨d, ds ++ 46 :: fp, rfl, by omega⟩
-  rw [ofStr_signed sign _ c r hs hc, ofStrBody_decimal _ ip fp hip hfp hne hk]
+  rw [ofStr_signed sign _ c r hs hc, ofStrBody_decimal _ ip fp hip hfp hne]
   intro x hx
   rcases List.mem_append.mp hx with h | h
   · exact digit_not_space x (hip x h)
@@ -286,10 +286,10 @@ theorem ofStr_decimal_nodot (sign : Option Bool) (ip : List Nat) (hip : AllDigit
 
 /-- both unsigned forms at once: `text` is `ip "." fp`, or just `ip` (then `fp` is empty) -/
 theorem ofStr_decimal_text (text ip fp : List Nat) (hip : AllDigits ip) (hfp : AllDigits fp)
-    (ht : text = ip ++ 46 :: fp ∨ (text = ip ∧ fp = [])) (hne : ip ≠ [] ∨ fp ≠ []) (hk : fp.length ≤ 800) :
+    (ht : text = ip ++ 46 :: fp ∨ (text = ip ∧ fp = [])) (hne : ip ≠ [] ∨ fp ≠ []) :
     ofStr text = .ok (ofRat false (digitsVal (ip ++ fp)) (10 ^ fp.length)) := by
   rcases ht with rfl | ⟨rfl, rfl⟩
-  · exact ofStr_decimal none ip fp hip hfp hne hk
+  · exact ofStr_decimal none ip fp hip hfp hne
   · have h := ofStr_decimal_nodot none text hip (by simpa using hne)
     simpa [signChars] using h
 
